@@ -48,6 +48,13 @@ def h_check(eng, case):
     except lvsref.UnboundFnArg:
         eng.reach('unbound-function-argument-not-claimed')
         return
+    if case.get('twice'):
+        # the same checker object answers an earlier question first: nothing of it may leak into the next answer
+        try:
+            checker.check(sym_name(eng, {'shape': case['pshape']}, 'q'), sym_name(eng, {'shape': case['kshape']}, 'j'))
+        except Exception as e:
+            eng.fail('check-no-exception', exc_sig(e), repr(e)[:150])
+            return
     try:
         got = checker.check(pkt, key)
     except Exception as e:
@@ -106,4 +113,7 @@ def cases(tier, seed):
                 for ps, ks in shapes:
                     cs.append(('check', {'schema': key, 'text': text, 'pshape': ps, 'kshape': ks},
                                {'weight': 1 + (lp + lk) ** 2}))
+                if lp in lens and lk in lens and 2 <= lp + lk <= 4 and (key.startswith('hand_') or tier != 'quick'):
+                    cs.append(('check', {'schema': key, 'text': text, 'pshape': [1] * lp, 'kshape': [1] * lk,
+                                         'twice': True}, {'weight': 1 + (lp + lk) ** 4}))
     return cs
